@@ -13,7 +13,7 @@ std::vector<CallView> calls_of(const Plan &p) {
         else if (o.op == "Mutate") apply_mutate(w, o.patch);
         else if (o.op == "Exec") v.push_back({opi++, &o.ex, w, k});
         else if (o.op == "CliConf") opi++;
-        else if (o.op == "ForkExec") { v.push_back({opi++, &o.ex, w, k}); }
+        else if (o.op == "ForkExec") { v.push_back({opi++, &o.ex, w, k, (int)(1 + o.extra_calls.size())}); }
         else if (o.op == "Batch") for (auto &t : o.threads) for (auto &e : t) v.push_back({opi++, &e, w, k, (int)o.threads.size()});
     }
     return v;
